@@ -713,6 +713,9 @@ class Analyzer:
             z = env.get(zk)
             if z and any(tok in x for x in z):
                 env[zk] = frozenset(x for x in z if tok not in x)
+        eq = env.get('$eq')
+        if eq and any(tok in a or tok in b for a, b in eq.items()):
+            env['$eq'] = {a: b for a, b in eq.items() if tok not in a and tok not in b}
         for k in [k for k in env if isinstance(k, str) and tok in k]:
             sk = k.replace(tok, '[*]')
             if sk not in self.keyinfo and k in self.keyinfo:
@@ -727,6 +730,11 @@ class Analyzer:
     def store(self, env, key, val, e=None, weak=False):
         if key is None:
             return
+        eq = env.get('$eq')
+        if eq and (key in eq or any(k_.startswith(key + '[') or k_.startswith(key + '->') for k_ in eq)):
+            eq = {a: b for a, b in eq.items() if a != key and b != key and not a.startswith(key + '[') and not b.startswith(key + '[')
+                  and not a.startswith(key + '->') and not b.startswith(key + '->')}
+            env['$eq'] = eq
         # symbolic name of the location (type based for fields, variable name for locals)
         sym = self.symbol(key, e)
         if sym is None and e is not None:
@@ -777,6 +785,28 @@ class Analyzer:
         else:
             env[key] = val
 
+    def note_equal(self, env, key, rhs):
+        """`x = (y = e)` / `x = y`: x and y hold the same value until either is stored again; a branch that refines one
+        refines the other (the `int t = info->field[i] = read(); if(t<0 || t>=N) goto err;` idiom)"""
+        if key is None:
+            return
+        r = self.ex[self.F.strip_casts(rhs)]
+        if r['k'] == 'assign' and r['op'] == '=':
+            other = self.path(r['c'][0], env)
+        elif r['k'] in ('ref', 'member', 'sub'):
+            if r['k'] == 'ref' and (r['decl']['kind'] not in ('var', 'param') or 'extent' in r['decl']):
+                return
+            other = self.path(self.F.strip_casts(rhs), env)
+        else:
+            return
+        if other is None or other == key or other.endswith('[*]') or key.endswith('[*]'):
+            return
+        # same integer type range only (a narrowing copy is not an equality)
+        eq = dict(env.get('$eq') or {})
+        eq[key] = other
+        eq[other] = key
+        env['$eq'] = eq
+
     @staticmethod
     def is_uninit(env, key):
         u = env.get('$uninit')
@@ -819,6 +849,9 @@ class Analyzer:
         z = env.get('$uninit')
         if z:
             env['$uninit'] = frozenset(x for x in z if not x.startswith(p))
+        eq = env.get('$eq')
+        if eq and any(a.startswith(p) or b.startswith(p) for a, b in eq.items()):
+            env['$eq'] = {a: b for a, b in eq.items() if not a.startswith(p) and not b.startswith(p)}
 
     # -- expression evaluation --------------------------------------------------------------------
     def ev(self, env, e):
@@ -933,6 +966,8 @@ class Analyzer:
             if self.hooks and self.hooks.on_store:
                 rhs = self.hooks.on_store(self, env, e, key, rhs) or rhs
             self.store(env, key, rhs, c[0])
+            if op == '=':
+                self.note_equal(env, key, c[1])
             return rhs
         if k == 'comma':
             self.ev(env, c[0])
@@ -973,6 +1008,7 @@ class Analyzer:
                     if self.hooks and self.hooks.on_store:
                         iv = self.hooks.on_store(self, env, e, key, iv) or iv
                     self.store(env, key, iv)
+                    self.note_equal(env, key, v['init'])
                 else:
                     # uninitialised local: unknown (struct/array locals: contents unknown)
                     self.havoc_reachable(env, '&' + key)
@@ -1293,6 +1329,12 @@ class Analyzer:
             # symbolic contradiction: a op b against what is already known about a and b
             if self.sym_contradiction(va, sa, op, vb, sb):
                 return None
+            if op == '!=':
+                # a <= b known and a != b: a < b (and the mirror image)
+                if sb is not None and sb in va.le:
+                    op = '<'
+                elif sa is not None and sa in vb.le:
+                    op = '>'
             na = self.restrict(va, op, vb, sb)
             nb = self.restrict(vb, {'<': '>', '<=': '>=', '>': '<', '>=': '<=', '==': '==', '!=': '!='}[op], va, sa)
             if na.is_bottom() or nb.is_bottom():
@@ -1445,7 +1487,7 @@ class Analyzer:
             nv.nn = False
         return nv
 
-    def assign_refined(self, env, e, old, new):
+    def assign_refined(self, env, e, old, new, _in_eq=False):
         """write the refined value back to the location e denotes (through casts, assignments, +-const)"""
         e0 = e
         nd = self.ex[e]
@@ -1492,6 +1534,18 @@ class Analyzer:
         if key is None:
             return
         env[key] = new
+        eq = env.get('$eq')
+        if eq and key in eq and not _in_eq:
+            k2 = eq[key]
+            o2 = env.get(k2)
+            if o2 is None:
+                o2 = self.get(env, k2)
+            n2 = o2.copy(lo=max(o2.lo, new.lo), hi=min(o2.hi, new.hi), lt=o2.lt | new.lt, le=(o2.le | new.le) - (o2.lt | new.lt),
+                         ne=o2.ne | new.ne)
+            if not n2.is_bottom():
+                env[k2] = n2
+                if n2.eop is not None and not (n2.lo <= n2.eop <= n2.hi):
+                    self.eop_sweep(env, o2, n2)
         if key.startswith('v') and key[1:].isdigit() and self.puredefs:
             vid = int(key[1:])
             for dv, (dexp, deps) in self.puredefs.items():
@@ -1538,6 +1592,9 @@ class Analyzer:
             v = sv.get(sym)
             if v is not None:
                 return v.lo
+            if sym.startswith('v') and sym[1:].isdigit():
+                v = env.get(sym)
+                return v.lo if isinstance(v, V) else None
             if '.' in sym:
                 r, fl = sym.split('.', 1)
                 fi = self.field_inv.get((r, fl, False))
@@ -1601,6 +1658,10 @@ class Analyzer:
             if k == '$rd':
                 out[k] = max(a.get(k) or 0, b.get(k) or 0)
                 continue
+            if k == '$eq':
+                ea, eb = a.get(k) or {}, b.get(k) or {}
+                out[k] = {x: y for x, y in ea.items() if eb.get(x) == y}
+                continue
             if k == '$sym':
                 sa, sb = a.get(k) or {}, b.get(k) or {}
                 out[k] = {x: join(sa[x], sb[x]) for x in sa if x in sb}
@@ -1660,7 +1721,7 @@ class Analyzer:
     def env_leq(self, a, b):
         """a ⊑ b ?"""
         for k in set(a) | set(b):
-            if k in ('$tmp', '$rd', '$sym'):
+            if k in ('$tmp', '$rd', '$sym', '$eq'):
                 continue
             if k in ('$zero', '$uninit'):
                 if not set(b.get(k, ())) <= set(a.get(k, ())):
